@@ -899,6 +899,13 @@ class DDLGen:
                             else "CREATE CONSTRAINT expression ON (true);")
             else:
                 subs.append('CREATE LINK bad -> NoSuchType;')       # fails part-way
+        for y in subs:
+            mo = re.match(r'ALTER PROPERTY (\w+) \{ RENAME TO (\w+);', y)
+            if mo and any(z is not y and re.search(r'\b' + mo.group(1) + r'\b', z) for z in subs):
+                # the old name is used again in the same command (resolved against the schema
+                # before the command): no expectation about either name
+                for key in [k for k, e in self.exp.items() if e[0] in ('ptr', 'noptr') and e[2] in mo.groups()]:
+                    del self.exp[key]
         if any('EXTENDING' in x for x in subs):
             # after a rebase the type may inherit a pointer of a name it just dropped / renamed
             for key in [k for k, e in self.exp.items() if e[0] == 'noptr']:
